@@ -165,6 +165,10 @@ class ModbusBaseRequestHandler(asyncio.BaseProtocol):
                     _logger.error("Unknown error occurred %s" % e)
                     reset_frame = True  # graceful recovery
             finally:
+                if not isinstance(self, ModbusConnectedRequestHandler):
+                    # datagrams are self contained: what is left of one must
+                    # not be prepended to the next (possibly another peer's)
+                    reset_frame = True
                 if reset_frame:
                     self.framer.resetFrame()
                     reset_frame = False
